@@ -232,6 +232,25 @@ def classify_harness(unit_expect, r):
         if r["status"] != "Success":
             return "undecided", "status %s without failed checks" % r["status"]
         return "pass", None
+    if unit_expect["kind"] == "maypanic":
+        # wrong answers and the container's own panics are tolerated; harness assertions
+        # (ownership, len, aliasing) and memory-safety checks are not
+        pats = [re.compile(p) for p in unit_expect["allow"]]
+        bad = []
+        for c in fails:
+            if c in unwind_fail:
+                continue
+            desc = c.get("description") or ""
+            s = desc + " || " + (c.get("function") or "") + " @ " + check_loc(c)
+            if is_harness_check(c) or MEMSAFE_PAT.search(desc) or not any(p.search(s) for p in pats):
+                bad.append(c)
+        if bad:
+            return "violation", bad
+        if unwind_fail:
+            return "undecided", "unwinding bound exceeded (%s)" % check_loc(unwind_fail[0])
+        if not sat:
+            return "broken", "vacuous: reachability cover not satisfied"
+        return "pass", None
     if unit_expect["kind"] == "panic":
         # the call must not return, only the container's own panic may fail,
         # and no memory-safety check may fail
